@@ -61,6 +61,25 @@ Proof.
 Qed.
 Print Assumptions C13_oto_monotone_relabel.
 
+(* ... and conversely every row of the relabelled output is the image of a row of the original *)
+Theorem C13_oto_monotone_relabel_converse :
+  forall phi, (forall a b, a < b -> phi a < phi b) ->
+  forall dfs thr nodes nodes' E E' (chl chr chl' chr' : chooser) fuel fuel' out out',
+    NoDup (map n_id nodes) -> NoDup (map n_id nodes') ->
+    Permutation (map (fn phi) nodes) nodes' -> eperm_flip (map (fe phi) E) E' ->
+    nodup_pairs E -> nodup_pairs E' ->
+    rank1_ok_for le_tiebreak chl -> rank1_ok_for le_tiebreak chr ->
+    rank1_ok_for le_tiebreak chl' -> rank1_ok_for le_tiebreak chr' ->
+    oto_loop dfs (df_neighbours thr E) chl chr fuel 1 (df_representatives nodes) = Some out ->
+    oto_loop dfs (df_neighbours thr E') chl' chr' fuel' 1 (df_representatives nodes') = Some out' ->
+    forall v' c' s, In (v', c', s) out' -> exists v c, v' = phi v /\ c' = phi c /\ In (v, c, s) out.
+Proof.
+  intros phi Hm. intros.
+  apply (monotone_relabel_invariant_conv le_tiebreak le_tiebreak_order phi Hm (le_tiebreak_relabel phi Hm)
+           dfs thr nodes nodes' E E' chl chr chl' chr' fuel fuel' out out'); auto using nodup_pairs_strict.
+Qed.
+Print Assumptions C13_oto_monotone_relabel_converse.
+
 (* ARBITRARY injective relabelling, pairwise distinct probabilities: the partition is preserved
    up to renaming (two records share a cluster iff their images do).  Cluster ids are NOT mapped
    in general: the id of a cluster is its least member under the new order
@@ -108,6 +127,39 @@ Proof.
 Qed.
 Print Assumptions C13_oto_injective_relabel_with_ties.
 
+(* ... and the partition is indeed NOT preserved: with tied probabilities the deterministic
+   tie-break (least, greatest node id) makes the choice among tied edges depend on the labels.
+   Witness: the FX-C12 records (ranks b-1=0, b-30=1, c-11=2, c-2=3, ds_x-101=4; c duplicate-free),
+   edges 2-4, 3-4, 1-4 at 800/1024 and 3-0 at 845/1024, relabelled by phi x = 4 - x.
+   Original clusters {0,3},{1,2,4}; after relabelling (in original ids) {0,1,3,4},{2}: records 1
+   and 2 share a cluster before and are separated after. *)
+Theorem C13_oto_injective_relabel_ties_refuted :
+  exists (phi : Z -> Z) dfs thr nodes E (chl chr : chooser) fuel out out' v w c c' d',
+    (forall a b, phi a = phi b -> a = b) /\
+    NoDup (map n_id nodes) /\ nodup_pairs E /\ nodup_pairs (map (fe phi) E) /\
+    rank1_ok_for le_tiebreak chl /\ rank1_ok_for le_tiebreak chr /\
+    one_to_one_clustering dfs thr chl chr fuel nodes E = Some out /\
+    one_to_one_clustering dfs thr chl chr fuel (map (fn phi) nodes) (map (fe phi) E) = Some out' /\
+    In (v, c) out /\ In (w, c) out /\ In (phi v, c') out' /\ In (phi w, d') out' /\ c' <> d'.
+Proof.
+  exists (fun x => 4 - x), [1], (Some (0#1)%Q), [(0,0);(3,1);(1,0);(2,1);(4,2)],
+         [(2,4,(800#1024)%Q);(3,4,(800#1024)%Q);(1,4,(800#1024)%Q);(3,0,(845#1024)%Q)],
+         (max_by le_tiebreak), (max_by le_tiebreak), 20%nat,
+         [(0,0);(3,0);(1,1);(2,1);(4,1)], [(4,0);(1,0);(3,0);(2,2);(0,0)], 1, 2, 1, 0, 2.
+  split; [intros a b H; lia|].
+  split; [cbn; repeat constructor; cbn; intuition lia|].
+  assert (Hnp : forall E0 : list edge,
+            E0 = [(2,4,(800#1024)%Q);(3,4,(800#1024)%Q);(1,4,(800#1024)%Q);(3,0,(845#1024)%Q)] \/
+            E0 = [(2,0,(800#1024)%Q);(1,0,(800#1024)%Q);(3,0,(800#1024)%Q);(1,4,(845#1024)%Q)] -> nodup_pairs E0).
+  { intros E0 [-> | ->]; unfold nodup_pairs; repeat constructor; intros (H & H1 & H2); vm_compute in H1; try discriminate H1;
+      vm_compute in H2; discriminate H2. }
+  split; [apply Hnp; left; reflexivity|]. split; [apply Hnp; right; reflexivity|].
+  split; [apply max_by_ok; exact le_tiebreak_order|]. split; [apply max_by_ok; exact le_tiebreak_order|].
+  split; [vm_compute; reflexivity|]. split; [vm_compute; reflexivity|].
+  cbn. repeat split; try tauto. lia.
+Qed.
+Print Assumptions C13_oto_injective_relabel_ties_refuted.
+
 (* the cluster id is the least member of the cluster (strictly ranked input) *)
 Theorem C12_cluster_id_is_min :
   forall dfs thr (chl chr : chooser) fuel nodes E out,
@@ -136,11 +188,20 @@ Theorem C13_metrics_perm_flip :
 Proof. intros. split; [apply nodes_perm_invariant|apply clusters_perm_invariant]; assumption. Qed.
 Print Assumptions C13_metrics_perm_flip.
 
-(* bridges depend only on the undirected edge relation of the remaining rows *)
+(* the edge-metric rows themselves: under any row order and orientation of the prediction rows the
+   edges table holds the same rows (endpoints canonicalised to (min, max)) with the same bridge flags *)
 Theorem C13_bridge_perm_flip :
+  forall thr P P', perm_flip P P' ->
+    Permutation (map canon_row (graph_metrics_edges (truncated_edges thr P)))
+                (map canon_row (graph_metrics_edges (truncated_edges thr P'))).
+Proof. intros. apply edges_table_perm_flip. apply truncated_perm_flip. assumption. Qed.
+Print Assumptions C13_bridge_perm_flip.
+
+(* auxiliary: connectivity depends only on the undirected edge relation *)
+Theorem C13_conn_same_undirected_edges :
   forall E F, (forall v w, uedge E v w <-> uedge F v w) -> forall v w, conn E v w <-> conn F v w.
 Proof. exact conn_same_uedges. Qed.
-Print Assumptions C13_bridge_perm_flip.
+Print Assumptions C13_conn_same_undirected_edges.
 
 (* any injective relabelling f of record ids: is_bridge of every edge row is unchanged (this is
    what makes the row_number() relabelling for igraph and the mapping back harmless) *)
@@ -173,6 +234,35 @@ Proof.
   intros r Hr. apply clusters_relabel; assumption.
 Qed.
 Print Assumptions C13_metrics_relabel.
+
+Theorem C13_metrics_relabel_converse :
+  forall f, (forall a b, f a = f b -> a = b) -> forall g, (forall a b, g a = g b -> a = b) ->
+  forall C thr P r', NoDup (map fst C) ->
+    In r' (graph_metrics_clusters (graph_metrics_nodes (map (fC f g) C) (truncated_edges thr (map (fP f) P)))) ->
+    exists r, In r (graph_metrics_clusters (graph_metrics_nodes C (truncated_edges thr P))) /\
+      r' = {| cl_cid := g (cl_cid r); cl_n_nodes := cl_n_nodes r; cl_n_edges := cl_n_edges r;
+              cl_density := cl_density r; cl_centralisation := cl_centralisation r |}.
+Proof. exact clusters_relabel_conv. Qed.
+Print Assumptions C13_metrics_relabel_converse.
+
+(* non-vacuity of the metrics theorems: triangle 0-1-2 with pendant 3 and isolated 4, records
+   relabelled by 10 - x, cluster ids by 2x + 7, rows reversed and two prediction rows flipped *)
+Example C13_metrics_example :
+  let C := [(0,0);(1,0);(2,0);(3,0);(4,4)] in
+  let P := [(0,1,(9#10)%Q);(2,1,(8#10)%Q);(0,2,(7#10)%Q);(3,2,(6#10)%Q);(3,4,(1#10)%Q)] in
+  let f := fun x => 10 - x in let g := fun x => 2 * x + 7 in
+  let P' := [(4,3,(1#10)%Q);(3,2,(6#10)%Q);(2,0,(7#10)%Q);(2,1,(8#10)%Q);(1,0,(9#10)%Q)] in
+  perm_flip P P' /\
+  map (fun r => (nm_uid r, nm_deg r)) (graph_metrics_nodes (map (fC f g) C) (truncated_edges (1#2)%Q (map (fP f) P)))
+  = [(10,2);(9,2);(8,3);(7,1);(6,0)] /\
+  map (fun r : Z * Z * bool => snd r) (graph_metrics_edges (truncated_edges (1#2)%Q (map (fP f) P))) = [false; false; false; true] /\
+  map (fun r => (nm_uid r, nm_deg r)) (graph_metrics_nodes (rev C) (truncated_edges (1#2)%Q P'))
+  = [(4,0);(3,1);(2,3);(1,2);(0,2)] /\
+  map canon_row (graph_metrics_edges (truncated_edges (1#2)%Q P')) = [(2,3,true);(0,2,false);(1,2,false);(0,1,false)].
+Proof.
+  split; [|vm_compute; repeat split; reflexivity]. unfold perm_flip.
+  exact (Permutation_rev [(0,1,(9#10)%Q);(1,2,(8#10)%Q);(0,2,(7#10)%Q);(2,3,(6#10)%Q);(3,4,(1#10)%Q)]).
+Qed.
 End GM.
 
 (* non-vacuity: the FX-C12 witness listed in reverse row order with three rows reversed *)
@@ -187,3 +277,27 @@ Proof.
   split; [|vm_compute; reflexivity]. unfold eperm_flip.
   exact (Permutation_rev [(2,4,(800#1024)%Q);(3,4,(800#1024)%Q);(1,4,(800#1024)%Q);(0,3,(845#1024)%Q)]).
 Qed.
+
+(* non-vacuity of C13_oto_monotone_relabel: the 9-record example relabelled by 2x + 1 (strictly
+   increasing): every record keeps its cluster, cluster ids are the images *)
+Example C13_oto_monotone_example :
+  let nodes := [(0,0);(1,1);(2,2);(3,0);(4,1);(5,2);(6,0);(7,1);(8,2)] in
+  let E := [(0,1,(90#100)%Q);(1,2,(70#100)%Q);(3,5,(85#100)%Q);(4,5,(90#100)%Q);(6,5,(80#100)%Q);(6,7,(70#100)%Q)] in
+  let phi := fun x => 2 * x + 1 in
+  forall out, one_to_one_clustering [0;1;2] (Some (1#2)%Q) (max_by le_tiebreak) (max_by le_tiebreak) 20 nodes E = Some out ->
+    one_to_one_clustering [0;1;2] (Some (1#2)%Q) (max_by le_tiebreak) (max_by le_tiebreak) 20 (map (fn phi) nodes) (map (fe phi) E)
+    = Some (map (fun vc => (phi (fst vc), phi (snd vc))) out).
+Proof. cbv zeta. intros out H. vm_compute in H. inversion H; subst. vm_compute. reflexivity. Qed.
+
+(* non-vacuity of C13_oto_injective_relabel_tiefree: distinct probabilities, relabelled by the
+   order-REVERSING 8 - x: the same records share clusters ({0,1,2},{3,4,5},{6,7},{8}), but the
+   cluster ids are the least members under the new order (not the images of the old ids) *)
+Example C13_oto_injective_example :
+  let nodes := [(0,0);(1,1);(2,2);(3,0);(4,1);(5,2);(6,0);(7,1);(8,2)] in
+  let E := [(0,1,(90#100)%Q);(1,2,(70#100)%Q);(3,5,(85#100)%Q);(4,5,(91#100)%Q);(6,5,(80#100)%Q);(6,7,(71#100)%Q)] in
+  let phi := fun x => 8 - x in
+  one_to_one_clustering [0;2] (Some (1#2)%Q) first_max first_max 20 nodes E
+  = Some [(0,0);(1,0);(2,0);(3,3);(4,3);(5,3);(6,6);(7,6);(8,8)] /\
+  one_to_one_clustering [0;2] (Some (1#2)%Q) first_max first_max 20 (map (fn phi) nodes) (map (fe phi) E)
+  = Some [(8,6);(7,6);(6,6);(5,3);(4,3);(3,3);(2,1);(1,1);(0,0)].
+Proof. split; vm_compute; reflexivity. Qed.
